@@ -45,7 +45,8 @@ ASSUMPTIONS = [
     "for the weights",
     "expected columns = sorted(set(names) & features of which_type) (binary names are silently dropped by "
     "the default which_type=['continuous']); feature names are taken from dir(IndentationFeatures)",
-    "ratings are integers 0..10",
+    "ratings are integers 0..10 (export histories also use 0.4, 7.5, 2.25 and 9.9: representable with the three "
+    "significant digits of the exported text)",
     "container order = iteration order of the 'analysis' group as h5py reports it; a curve's features = "
     "IndentationRater.compute_features of the fitted in-memory curve at the time of its first save",
     "curves whose fit or feature computation raises are left out of the container (C17/C06 territory)",
@@ -650,11 +651,20 @@ def check_export(case, ctx):
         # the exported directory is also a training set like any other: all flag combinations
         info = verify_directory(out, case["names"], case["which_type"], ctx, desc)
         if info.get("default") is not None and info["default"][1].shape[0]:
-            verify_weights(*info["default"], ctx, {"part": "weights-of-exported-set"})
+            if all(float(r) == int(r) for r in ratings):
+                verify_weights(*info["default"], ctx, {"part": "weights-of-exported-set"})
+            else:
+                # compute_sample_weight states its domain: "Only integer ratings allowed"
+                ctx.event("non_integer_ratings_no_weights")
     finally:
         if not noted:
             ctx.note_case(case, nontrivial=False, classes=["export:aborted"])
         shutil.rmtree(wd, ignore_errors=True)
+
+
+#: user ratings: integers 0..10 and a few non-integers with <= 3 significant digits (save_hdf5 takes a float; the
+#: exported text has 3 significant digits)
+ST_RATING = st.one_of(st.integers(0, 10), st.integers(0, 10), st.sampled_from([0.4, 7.5, 2.25, 9.9]))
 
 
 @st.composite
@@ -664,11 +674,11 @@ def st_export(draw):
                            noise=st.sampled_from([0.0, 1e-3, 0.01, 0.05, 0.3]), n_range=(40, 900),
                            sampling=("linear", "jitter"), wide=False)
     fit = {"model_key": st.sampled_from(FIT_MODELS), "prep": st.integers(0, len(PREPROC) - 1),
-           "rating": st.integers(0, 10)}
+           "rating": ST_RATING}
     synthetic = st.fixed_dictionaries(dict(fit, src=st.just("synth"), curve=curve, file=st.integers(0, 1)))
     recorded = st.fixed_dictionaries(dict(fit, src=st.just("file"), name=st.sampled_from(RECORDED),
                                           idx=st.integers(0, 7)))
-    again = st.fixed_dictionaries({"src": st.just("again"), "ref": st.integers(0, 4), "rating": st.integers(0, 10)})
+    again = st.fixed_dictionaries({"src": st.just("again"), "ref": st.integers(0, 4), "rating": ST_RATING})
     lo, hi = draw(st.sampled_from([(0, 0), (1, 2), (1, 2), (3, 4), (3, 4)]))
     items = [draw(st.one_of(synthetic, recorded))]
     items += draw(st.lists(st.one_of(synthetic, synthetic, recorded, again), min_size=lo, max_size=hi))
